@@ -12,7 +12,7 @@ var ginRouters int
 
 func TestVerifGinMiddleware(t *testing.T) {
 	gin.SetMode(gin.ReleaseMode)
-	vRunDriver(t, vDriver{Name: "gin.SentinelMiddleware", DefaultRes: "GET:/ping/:id", CustomRes: "custom-gin", HasFallback: true, CanPanic: true,
+	vRunDriver(t, vDriver{Name: "gin.SentinelMiddleware", DefaultRes: "GET:/ping/:id", AltRes: "GET:/other", CustomRes: "custom-gin", HasFallback: true, CanPanic: true,
 		Run: func(r vReq, handler func() error) vOut {
 			var opts []Option
 			if r.Extractor {
@@ -71,13 +71,24 @@ func TestVerifGinMiddleware(t *testing.T) {
 				}
 				c.String(http.StatusOK, "pong")
 			})
+			router.GET("/other", func(c *gin.Context) { // a second route behind the same middleware value
+				if err := hs.call(); err != nil {
+					c.String(http.StatusBadGateway, "err")
+					return
+				}
+				c.String(http.StatusOK, "pong")
+			})
 			return func(h func() error) (out vOut) {
 				f := &flags{}
 				cur = append(cur, f)
 				defer func() { cur = cur[:len(cur)-1] }()
 				hs.with(h, func() {
 					w := httptest.NewRecorder()
-					router.ServeHTTP(w, httptest.NewRequest("GET", "/ping/7", nil))
+					path := "/ping/7"
+					if vAlt {
+						path = "/other"
+					}
+					router.ServeHTTP(w, httptest.NewRequest("GET", path, nil))
 					out = vOut{Status: w.Code, Body: w.Body.String(), Panicked: f.panicked, PanicVal: f.pv}
 				})
 				return out
